@@ -625,9 +625,10 @@ impl Universe {
                 return Err("cannot move stderr to 201".into());
             }
             let null = libc::open(b"/dev/null\0".as_ptr() as *const libc::c_char, libc::O_RDWR);
-            for fd in 0..3 {
+            for fd in 0..2 {
                 libc::dup2(null, fd);
             }
+            // fd 2 stays the real stderr: an abort message from the runtime must not be lost
             if null > 2 {
                 libc::close(null);
             }
